@@ -135,3 +135,29 @@ PROPS["C01"] = {
         "design_ref": "DESIGN.md §4 C01",
     },
 }
+
+PROPS["C15"] = {
+    "level": "model_checking",
+    "kani": [{"package": "boa_engine", "flags": ENGINE_FLAGS, "tags": ["model", "c15a", "c01d"]}],
+    "assumptions": COMMON_ASSUME + [
+        "JsValue::to_number is stubbed to the identity on Numbers (the real one returns exactly that for a Number without touching Context); a &mut Context placeholder is passed that must never be dereferenced",
+    ],
+    "outside_claim": [
+        "sequences of buffer creation/resize/transfer/detach, %TypedArray% methods, Atomics: need Context and the GC heap",
+        "BigInt64/BigUint64 conversions (num-bigint arithmetic)",
+        "non-Number operands (coercion needs Context)",
+    ],
+    "trusted_base": ["integer-arithmetic reference model harness/core/engine/src/lib.rs.model.kani.rs", "the to_number stub"],
+    "manifest": {
+        "text": "Kernel-level claim. Bounded model checking of the element conversion kernels every integer typed array and DataView "
+                "setter goes through (to_int8/uint8/int16/uint16/i32/u32/uint8_clamp): for ALL Numbers (every int32 and every one of "
+                "the 2^64 double bit patterns) the stored element equals trunc(x) modulo 2^k computed by an integer-arithmetic model "
+                "of the IEEE encoding (round-half-even clamp for Uint8Clamped). This is where the saturating-cast defect "
+                "(setUint8(0, 3.5e38) storing 255) lives. View bounds arithmetic and raw byte movers are added by further harnesses "
+                "listed in evidence. Buffer/view histories are NOT decided.",
+        "note": "Trusted: Kani/CBMC, the integer reference model, the to_number stub. Outside: resize/detach/transfer histories, "
+                "TypedArray builtins, Atomics, BigInt element types.",
+        "technique": "bounded model checking of the compiled Rust (Kani/CBMC, SAT) over all 2^64 double bit patterns vs integer-domain spec model",
+        "design_ref": "DESIGN.md §4 C15",
+    },
+}
